@@ -97,6 +97,17 @@ def check(ctx):
             for tag, x in pts:
                 lines.append(f'b {name} {enc_bits(x)}')
             outs = drv.ask_many(lines)
+            # the body as the translator read it from the current source, evaluated in Lean Float: validates the
+            # translator's reading (broadcasting, operator order, inlined helpers) against the running code
+            touts = drv.ask_many([f'fx bench {name} - {enc_bits(x)}' for tag, x in pts])
+            for (tag, x), o in zip(pts, touts):
+                y = float(fn(np.array(x, dtype=float)))
+                if o in ('bad-op', 'unknown', 'bad') or o.startswith('v '):
+                    C.issue('translated-formula-unreadable', 'correspondence', dict(how='bench', name=name, x=x), model=o[:60])
+                    break
+                if not close(bits2f(o), y):
+                    C.issue('translated-formula-mismatch', 'correspondence', dict(how='bench', name=name, x=x), model=bits2f(o), real=y)
+            C.extra['translated_formula_evaluations'] = C.extra.get('translated_formula_evaluations', 0) + len(touts)
             for (tag, x), o in zip(pts, outs):
                 xa = np.array(x, dtype=float)
                 y = float(fn(xa))
